@@ -23,7 +23,7 @@ REGISTRATION = {
             "routes.go on every run; a case-sensitive file system is assumed.",
 }
 
-MODULES = ["OllamaVerif.Properties.C04", "OllamaVerif.Proofs.Store", "OllamaVerif.Model.Store"]
+MODULES = ["OllamaVerif.Properties.C04", "OllamaVerif.Proofs.Store", "OllamaVerif.Model.Store", "OllamaVerif.Tie.C04"]
 THEOREMS = [
     # pinned tree (guards)
     "OllamaVerif.C04.op_preserves_NameInv",
@@ -37,6 +37,8 @@ THEOREMS = [
     "OllamaVerif.C04.op_frame_fixed",
     "OllamaVerif.C04.history_preserves_Inv_fixed",
     "OllamaVerif.C04.prune_exact_fixed",
+    "OllamaVerif.C04.prune_skipped",
+    "OllamaVerif.C04.prune_classes_witness",
     "OllamaVerif.C04.no_new_case_twins_fixed",
     "OllamaVerif.C04.no_case_twins_fixed",
     "OllamaVerif.C04.reachable_no_twins_fixed",
@@ -60,39 +62,78 @@ THEOREMS = [
     "OllamaVerif.C04.F16b_repaired_witness",
     "OllamaVerif.C04.N1_repaired_witness",
     "OllamaVerif.C04.wEnv_inj",
+    # Tie 1: facts regenerated from the source of the tree under test
+    "OllamaVerif.Tie.C04.blob_pattern",
+    "OllamaVerif.Tie.C04.serve_startup_sequence",
 ]
 OVERLAY = {"server/zz_verif_c04_test.go": "server/zz_verif_c04_test.go"}
 
 
 SERVE_SEQUENCE = ["fixBlobs(blobsDir)", "envconfig.NoPrune()", "Manifests(false)", "PruneLayers()",
                   "PruneDirectory(manifestsPath)"]
+CREATE_MODEL_CALLS = ["setTemplate(", "setSystem(", "setLicense(", "setParameters(", "setMessages(",
+                      "createConfigLayer(", "WriteManifest("]
+PRUNE_LAYERS_CALLS = ["os.ReadDir(", "strings.ReplaceAll(name, \"-\", \":\")", "GetBlobsPath(name)",
+                      "ErrInvalidDigestFormat", "os.Remove(", "deleteMap[name]", "deleteUnusedLayers(deleteMap)"]
 
 
-def serve_sequence_tie(ctx):
-    """Tie 1 (textual): the driver's `prune` operation transcribes the startup sequence of Serve; check that
-    routes.go still performs exactly these calls in this order before it starts serving."""
+def _func_body(src, name):
+    import re
+    m = re.search(r"^func (?:\([^)]*\) )?" + re.escape(name) + r"\(.*?^}", src, flags=re.S | re.M)
+    return m.group(0) if m else ""
+
+
+def _order(body, calls):
+    """the given call texts in the order of their FIRST occurrence in body (absent ones are dropped)"""
+    found = [(body.find(c), c) for c in calls if body.find(c) >= 0]
+    return [c for _, c in sorted(found)]
+
+
+def _lean_list(xs):
+    return "[" + ", ".join('"' + x.replace("\\", "\\\\").replace('"', '\\"') + '"' for x in xs) + "]"
+
+
+def regenerate(ctx):
+    """Tie 1: facts read from the source of the tree under test on every run, consumed by `decide` theorems in
+    Tie/C04.lean: the digest pattern of GetBlobsPath, the startup sequence of Serve, the order in which PruneLayers
+    classifies / removes, the order of the override steps in createModel and drop-before-store inside each."""
     import os
     import re
-    try:
-        src = open(os.path.join(core.REPO, "server", "routes.go")).read()
-    except OSError as e:
-        ctx.violation("serve-sequence", "", f"cannot read routes.go: {e}", no_input=True)
-        return
-    m = re.search(r"^func Serve\(.*?^}", src, flags=re.S | re.M)
-    body = m.group(0) if m else ""
-    pos = -1
-    for call in SERVE_SEQUENCE:
-        nxt = body.find(call, pos + 1)
-        if nxt < 0:
-            ctx.violation("serve-sequence", "", f"Serve no longer contains `{call}` after the previous startup "
-                          f"call; the driver's transcription of the startup prune is stale", no_input=True)
-            return
-        pos = nxt
-    ctx.coverage["serve_sequence_tie"] = "ok: " + " -> ".join(SERVE_SEQUENCE)
+
+    def read(rel):
+        try:
+            return open(os.path.join(core.REPO, rel)).read()
+        except OSError:
+            return ""
+    modelpath, routes, images, create = (read("server/modelpath.go"), read("server/routes.go"),
+                                         read("server/images.go"), read("server/create.go"))
+    m = re.search(r'pattern := "([^"]*)"', _func_body(modelpath, "GetBlobsPath"))
+    pattern = m.group(1) if m else ""
+    facts = {
+        "serveCalls": _order(_func_body(routes, "Serve"), SERVE_SEQUENCE),
+        "pruneLayersCalls": _order(_func_body(images, "PruneLayers"), PRUNE_LAYERS_CALLS),
+        "createModelCalls": _order(_func_body(create, "createModel"), CREATE_MODEL_CALLS),
+        "setTemplateOrder": _order(_func_body(create, "setTemplate"), ["removeLayer(", "template.Parse(", "NewLayer("]),
+        "setSystemOrder": _order(_func_body(create, "setSystem"), ["removeLayer(", "NewLayer("]),
+        "setParametersOrder": _order(_func_body(create, "setParameters"), ["removeLayer(", "NewLayer("]),
+        "removeLayerCalls": _order(_func_body(create, "removeLayer"), ["kept[", "layer.Remove()"]),
+    }
+    body = ("-- REGENERATED on every run by vlib/checks/c04.py from the working tree under test. Do not edit.\n"
+            "namespace OllamaVerif.Generated.C04\n"
+            "/-- the regular expression of GetBlobsPath (server/modelpath.go) -/\n"
+            f"def blobPattern : String := {_lean_list([pattern])[1:-1]}\n")
+    # only what the machinery itself relies on becomes a proof obligation (the driver transcribes the startup
+    # sequence; model and driver classify file names by this pattern); the other shape facts are recorded in the
+    # evidence, not enforced: a refactor that keeps the behaviour must not fail the check (L1/L2 judge behaviour)
+    for k in ("serveCalls",):
+        body += f"def {k} : List String := {_lean_list(facts[k])}\n"
+    body += "end OllamaVerif.Generated.C04\n"
+    core.write_generated("OllamaVerif/Generated/C04_Source.lean", body)
+    ctx.coverage["tie1_source_facts"] = dict(facts, blobPattern=pattern)
 
 
 def run(ctx):
-    serve_sequence_tie(ctx)
+    regenerate(ctx)
     ctx.lean_check(MODULES, THEOREMS)
     import os
     env = {"VERIF_N": ctx.scale(300, 5000), "VERIF_OPS": 40,
